@@ -37,6 +37,7 @@ type params struct {
 	Flush     int          `json:"flush_concurrency"`
 	Store     string       `json:"store"` // mem | localfs
 	Chunked   int          `json:"store_reader_chunk"`
+	EOFT      bool         `json:"store_reader_eof_with_last_bytes,omitempty"`
 	ProgSeed  int64        `json:"prog_seed"`
 	Conc      int          `json:"concurrent_readers"`
 	ContentID string       `json:"content"`
@@ -85,6 +86,9 @@ func gen01(seed int64, tier string) []drv.Case {
 			p.Store = "localfs"
 		} else if r.Intn(3) == 0 {
 			p.Chunked = []int{1, 7, 100, 4096}[r.Intn(4)]
+			p.EOFT = r.Intn(2) == 0
+		} else if r.Intn(4) == 0 {
+			p.EOFT = true // whole blob in one Read, together with io.EOF
 		}
 		return p
 	}
@@ -178,7 +182,7 @@ func mkStore(p params, scratch string) (storage.Store, func()) {
 		}
 		return localfs.New(afero.NewBasePathFs(afero.NewOsFs(), dir), localfs.WithRetry(false)), func() { os.RemoveAll(dir) }
 	}
-	w := memstore.NewWorld(memstore.Config{ChunkedReader: p.Chunked})
+	w := memstore.NewWorld(memstore.Config{ChunkedReader: p.Chunked, EOFWithData: p.EOFT})
 	return w.Store("blob").For(nil), func() {}
 }
 
@@ -250,7 +254,7 @@ func run01(c drv.Case, res *drv.Result) {
 	if maxWrite > p.Leaf {
 		wclass = "write>leaf"
 	}
-	res.Canon = fmt.Sprintf("leaf=%d len=%d src=%s/%d pf=%d cache=%d fl=%d st=%s/%d conc=%d", p.Leaf, p.Len, p.Src.Kind, p.Src.Chunk, p.Prefetch, p.CacheLv, p.Flush, p.Store, p.Chunked, p.Conc)
+	res.Canon = fmt.Sprintf("leaf=%d len=%d src=%s/%d pf=%d cache=%d fl=%d st=%s/%d/%v conc=%d", p.Leaf, p.Len, p.Src.Kind, p.Src.Chunk, p.Prefetch, p.CacheLv, p.Flush, p.Store, p.Chunked, p.EOFT, p.Conc)
 	res.Nontrivial = true
 	res.Seen("length_class", lc)
 	res.Seen("source_kind", p.Src.Kind+"/"+wclass)
